@@ -49,11 +49,12 @@ type structInfo struct {
 }
 
 var (
-	fset    = token.NewFileSet()
-	structs = map[string]*structInfo{}
-	methods = map[string]map[string]*ast.FuncDecl{} // receiver type -> method name -> decl
-	funcs   []*ast.FuncDecl                         // package-level functions
-	entries []entry
+	fset      = token.NewFileSet()
+	structs   = map[string]*structInfo{}
+	methods   = map[string]map[string]*ast.FuncDecl{} // receiver type -> method name -> decl
+	funcs     []*ast.FuncDecl                         // package-level functions
+	entries   []entry
+	pkgPrefix string // "" for package logs, "logrimp." for utils/logs/logrimp
 )
 
 // construction-phase helpers: called before the object is published
@@ -184,7 +185,7 @@ func (c *ctx) modeFor(owner string) string {
 
 func (c *ctx) record(owner, fname, access string, pos token.Pos) {
 	p := fset.Position(pos)
-	entries = append(entries, entry{Owner: owner, Method: c.entryName, Field: fname, Access: access,
+	entries = append(entries, entry{Owner: pkgPrefix + owner, Method: pkgPrefix + c.entryName, Field: fname, Access: access,
 		Lock: c.modeFor(owner), Phase: c.phase, Pos: fmt.Sprintf("%s:%d", filepath.Base(p.Filename), p.Line)})
 }
 
@@ -578,16 +579,12 @@ func writeIfChanged(path, content string) {
 	}
 }
 
-func main() {
-	repo := os.Getenv("VERIF_REPO")
-	if repo == "" {
-		repo = "/repo"
-	}
-	out := "/verif/coq/C13"
-	if len(os.Args) > 1 {
-		out = os.Args[1]
-	}
-	dir := filepath.Join(repo, "utils", "logs")
+// analyse adds the accesses of one package directory to [entries]
+func analyse(dir, prefix string, withInit bool) int {
+	structs = map[string]*structInfo{}
+	methods = map[string]map[string]*ast.FuncDecl{}
+	funcs = nil
+	pkgPrefix = prefix
 	names, err := filepath.Glob(filepath.Join(dir, "*.go"))
 	if err != nil || len(names) == 0 {
 		fmt.Fprintln(os.Stderr, "loglocks2coq: no Go files in", dir)
@@ -663,6 +660,9 @@ func main() {
 
 	// init-phase helpers may only be called from New* constructor functions
 	for key := range initPhase {
+		if !withInit {
+			break
+		}
 		parts := strings.SplitN(key, ".", 2)
 		if methods[parts[0]][parts[1]] == nil {
 			die(token.NoPos, "construction-phase helper %s no longer exists", key)
@@ -683,6 +683,9 @@ func main() {
 				return true
 			}
 			for key := range initPhase {
+				if !withInit {
+					break
+				}
 				if sel.Sel.Name == strings.SplitN(key, ".", 2)[1] && !isCtor {
 					die(call.Pos(), "construction-phase helper %s called outside a constructor (in %s)", key, fd.Name.Name)
 				}
@@ -723,7 +726,7 @@ func main() {
 			}
 			_, rv := recvOf(m)
 			phase := "run"
-			if initPhase[t+"."+n] {
+			if withInit && initPhase[t+"."+n] {
 				phase = "init"
 			}
 			c := &ctx{entryName: t + "." + n, phase: phase, recvType: t, recvVar: rv, held: map[lockKey]string{}, stack: []string{t + "." + n}}
@@ -736,9 +739,25 @@ func main() {
 	// also the promoted exported methods of embedded package-local structs are entry points of the outer type, but their
 	// accesses are exactly those listed under the embedded type: nothing to add.
 
+	return len(typeNames)
+}
+
+func main() {
+	repo := os.Getenv("VERIF_REPO")
+	if repo == "" {
+		repo = "/repo"
+	}
+	out := "/verif/coq/C13"
+	if len(os.Args) > 1 {
+		out = os.Args[1]
+	}
+	dir := filepath.Join(repo, "utils", "logs")
+	nTypes := analyse(dir, "", true)
+	// the logr implementations the adapters are built on (package logrimp): owners and methods carry the prefix
+	nTypes += analyse(filepath.Join(dir, "logrimp"), "logrimp.", false)
 	var b strings.Builder
-	b.WriteString("(* GENERATED by translator-c13/cmd/loglocks2coq from utils/logs/*.go — do not edit.\n")
-	b.WriteString("   One line per access to a field of the receiver in an exported method of a struct type of package logs. *)\n")
+	b.WriteString("(* GENERATED by translator-c13/cmd/loglocks2coq from utils/logs/*.go and utils/logs/logrimp/*.go — do not edit.\n")
+	b.WriteString("   One line per access to a field of the receiver in an exported method of a struct type of packages logs and logrimp. *)\n")
 	b.WriteString("From Coq Require Import List String.\nImport ListNotations.\nFrom GU Require Import C13.Base.\nLocal Open Scope string_scope.\n\n")
 	b.WriteString("Definition table : list entry := [\n")
 	for i, e := range entries {
@@ -755,5 +774,5 @@ func main() {
 	writeIfChanged(filepath.Join(out, "Gen.v"), b.String())
 	js, _ := json.MarshalIndent(map[string]any{"source": dir, "entries": entries}, "", " ")
 	writeIfChanged(filepath.Join(out, "loglocks.json"), string(js)+"\n")
-	fmt.Printf("loglocks2coq: %d accesses in %d struct types\n", len(entries), len(typeNames))
+	fmt.Printf("loglocks2coq: %d accesses in %d struct types\n", len(entries), nTypes)
 }
